@@ -236,8 +236,10 @@ spif_ustr_init_from_fp(spif_ustr_t self, FILE *fp)
 
     for (p = self->s; fgets((char *)p, buff_inc, fp); p = self->s + pos) {
         if (!(end = (spif_charptr_t)strchr((const char *)p, '\n'))) {
-            /* The buffer may move; keep an offset, not a pointer into it. */
-            pos += buff_inc;
+            /* The buffer may move; keep an offset, not a pointer into it.
+               fgets() stored buff_inc - 1 characters; the next chunk must
+               start on top of the terminator it put after them. */
+            pos += buff_inc - 1;
             self->size += buff_inc;
             self->s = (spif_charptr_t) REALLOC(self->s, self->size);
         } else {
